@@ -106,6 +106,28 @@ pub mod ax {
     pub broadcast axiom fn str_ext(a: &str, b: &str)
         requires #[trigger] a@ == #[trigger] b@
         ensures a == b;
+//# section: ax-hash-string
+    // TRUSTED: String's Hash/Eq are consistent (std), so HashMap<String, _> behaves as a map.
+    pub broadcast axiom fn string_key_model()
+        ensures #[trigger] vstd::std_specs::hash::obeys_key_model::<String>();
+    // TRUSTED: a String is determined by its character sequence (`string_of` is the inverse of the view), and
+    // looking a `&str` up in a HashMap<String, _> finds the entry whose key has that text (Borrow<str> for String).
+    pub uninterp spec fn string_of(v: Seq<char>) -> String;
+    pub broadcast axiom fn string_of_view(s: String)
+        ensures string_of(#[trigger] s@) == s;
+    pub broadcast axiom fn view_string_of(v: Seq<char>)
+        ensures (#[trigger] string_of(v))@ == v;
+    pub broadcast axiom fn borrowed_string_key<V>(m: Map<String, V>, k: &str)
+        ensures #[trigger] vstd::std_specs::hash::contains_borrowed_key(m, k) == m.contains_key(string_of(k@));
+    // TRUSTED: &str compares by content
+    pub broadcast axiom fn str_peq(a: &str, b: &str)
+        ensures #[trigger] super::stdspec::peq::<&str>(a, b) <==> a@ == b@;
+//# section: ax-extend
+    pub broadcast axiom fn into_seq_vec<T>(v: Vec<T>) ensures #[trigger] super::stdspec::into_seq::<Vec<T>, T>(v) == v@;
+    pub broadcast axiom fn into_map_hashmap<K, V>(m: std::collections::HashMap<K, V>) ensures #[trigger] super::stdspec::into_map::<std::collections::HashMap<K, V>, K, V>(m) == m@;
+//# section: ax-slice-iter
+    pub broadcast axiom fn iter_seq_is_remaining<'a, T>(it: core::slice::Iter<'a, T>)
+        ensures #[trigger] super::stdspec::iter_seq(it) == vstd::std_specs::iter::IteratorSpec::remaining(&it);
 //# section: ax-end
 }
 //# section: stdspec-begin
@@ -148,6 +170,48 @@ pub mod stdspec {
     // TRUSTED: Option::as_deref keeps presence (std docs: `Option<T>` -> `Option<&T::Target>`).
     pub assume_specification<T: core::ops::Deref> [Option::<T>::as_deref] (o: &Option<T>) -> (r: Option<&<T as core::ops::Deref>::Target>)
         ensures r is Some <==> o is Some;
+//# section: stdspec-slice-iter
+    // `iter_seq(it)`: the references a slice iterator has still to yield (bridged to vstd's `remaining()` by
+    // axiom iter_seq_is_remaining; an uninterpreted name avoids a definitional cycle in Verus).
+    #[verifier::prophetic]
+    pub uninterp spec fn iter_seq<'a, T>(it: core::slice::Iter<'a, T>) -> Seq<&'a T>;
+    // TRUSTED: Iterator::any / Iterator::find on a slice iterator (std docs), stated through the closure's own postcondition.
+    pub assume_specification<'a, T, F: FnMut(&'a T) -> bool> [<core::slice::Iter<'a, T> as Iterator>::any::<F>] (it: &mut core::slice::Iter<'a, T>, f: F) -> (b: bool)
+        where core::slice::Iter<'a, T>: Sized
+        ensures
+            b ==> exists|i: int| 0 <= i < iter_seq(*old(it)).unref().len() && f.ensures((&#[trigger] iter_seq(*old(it)).unref()[i],), true),
+            !b ==> forall|i: int| 0 <= i < iter_seq(*old(it)).unref().len() ==> f.ensures((&#[trigger] iter_seq(*old(it)).unref()[i],), false);
+    pub assume_specification<'a, T, P: FnMut(&&'a T) -> bool> [<core::slice::Iter<'a, T> as Iterator>::find::<P>] (it: &mut core::slice::Iter<'a, T>, f: P) -> (r: Option<<core::slice::Iter<'a, T> as Iterator>::Item>)
+        where core::slice::Iter<'a, T>: Sized
+        ensures
+            r is Some ==> exists|i: int| 0 <= i < iter_seq(*old(it)).unref().len() && *r->0 == #[trigger] iter_seq(*old(it)).unref()[i] && f.ensures((&r->0,), true),
+            r is None ==> forall|i: int| 0 <= i < iter_seq(*old(it)).unref().len() ==> f.ensures((&&#[trigger] iter_seq(*old(it)).unref()[i],), false);
+//# section: stdspec-string-eq-str
+    // TRUSTED: String == &str / String == str compare the character sequences (std).
+    pub assume_specification<'a> [<String as PartialEq<&'a str>>::eq] (a: &String, b: &&str) -> (r: bool)
+        ensures r <==> a@ == (*b)@;
+    pub assume_specification [<String as PartialEq<str>>::eq] (a: &String, b: &str) -> (r: bool)
+        ensures r <==> a@ == b@;
+//# section: stdspec-lowercase
+    pub uninterp spec fn lowercase(s: Seq<char>) -> Seq<char>;
+    // TRUSTED: str::to_lowercase is a function of the text.
+    pub assume_specification [str::to_lowercase] (s: &str) -> (r: String)
+        ensures r@ == lowercase(s@);
+//# section: stdspec-extend
+    // TRUSTED: Extend::extend appends the items of the argument (Vec) / inserts them, later keys winning (HashMap).
+    pub uninterp spec fn into_seq<I, T>(i: I) -> Seq<T>;
+    pub assume_specification<T, A: core::alloc::Allocator, I: IntoIterator<Item = T>> [<Vec<T, A> as Extend<T>>::extend] (v: &mut Vec<T, A>, i: I)
+        ensures (*final(v))@ == (*old(v))@ + into_seq::<I, T>(i);
+    pub uninterp spec fn into_map<I, K, V>(i: I) -> Map<K, V>;
+    pub assume_specification<K: Eq + core::hash::Hash, V, S: core::hash::BuildHasher, A: core::alloc::Allocator, T: IntoIterator<Item = (K, V)>>
+        [<std::collections::HashMap<K, V, S, A> as Extend<(K, V)>>::extend] (m: &mut std::collections::HashMap<K, V, S, A>, i: T)
+        ensures (*final(m))@ == (*old(m))@.union_prefer_right(into_map::<T, K, V>(i));
+//# section: stdspec-assert-failed
+    // assert!/assert_eq!/assert_ne! panic through core::panicking::assert_failed: reaching it is an obligation
+    #[verifier::external_type_specification]
+    pub struct ExAssertKind(core::panicking::AssertKind);
+    pub assume_specification<T: core::fmt::Debug + ?Sized, U: core::fmt::Debug + ?Sized> [core::panicking::assert_failed] (k: core::panicking::AssertKind, a: &T, b: &U, m: Option<core::fmt::Arguments<'_>>) -> !
+        requires false; // [label: assertion-holds]
 //# section: stdspec-drop
     pub assume_specification<T> [core::mem::drop::<T>] (x: T);
 //# section: stdspec-end
